@@ -388,6 +388,86 @@ theorem step_send_sent (s s' : State) (t c x conn n : Nat) (d : Bytes)
   · split at h <;> (simp only [Option.some.injEq] at h; subst h; simp)
   · simp only [Option.some.injEq] at h; subst h; simp
 
+/-! ### communicators without identification: the states of checkHWIdent are never entered -/
+
+def identPc (p : Pc) : Bool :=
+  match p with
+  | .idChk | .idChkNow | .idAcq | .idSlp | .idWake | .idFlush | .idDrain | .idRead | .idRel | .idClosing _ | .idVisF _
+  | .idFail | .idEnd _ => true
+  | _ => false
+
+def identFree (k : Caller) : Prop := identPc k.pc = false ∧ k.idSaved = []
+
+theorem rcFail_ni {k : Caller} (h : k.idSaved = []) : rcFail k = failTo k := by unfold rcFail; rw [h]
+
+theorem afterConnected_ni (s : State) {k : Caller} (h : k.idSaved = []) :
+    afterConnected s k = if s.isConn then { k with pc := if k.kind = .poll then .done else .acqI, viaRead := true }
+      else (if k.kind = .poll then { k with pc := .done } else failTo k) := by
+  unfold afterConnected; rw [h]
+
+theorem startIdent_ni (s : State) (k : Caller) (h : s.cfg.ident = []) : startIdent s k = afterIdent s k := by
+  unfold startIdent; rw [h]
+
+theorem identFree_failTo {k : Caller} (h : identFree k) : identFree (failTo k) := by
+  unfold failTo; refine ⟨?_, h.2⟩; simp only; split <;> rfl
+
+theorem identFree_nextReq {k : Caller} (h : identFree k) : identFree (nextReq k) := by
+  unfold nextReq; split <;> (try split) <;> exact ⟨rfl, h.2⟩
+
+theorem identFree_toFlush (s : State) {k : Caller} (h : identFree k) : identFree (toFlush s k) := by
+  unfold toFlush; split
+  · exact identFree_failTo h
+  · exact ⟨rfl, h.2⟩
+
+theorem identFree_afterConnected (s : State) {k : Caller} (h : identFree k) : identFree (afterConnected s k) := by
+  rw [afterConnected_ni s h.2]
+  split
+  · refine ⟨?_, h.2⟩; simp only; split <;> rfl
+  · split
+    · exact ⟨rfl, h.2⟩
+    · exact identFree_failTo h
+
+theorem identFree_afterIdent (s : State) {k : Caller} (h : identFree k) : identFree (afterIdent s k) := by
+  unfold afterIdent
+  split
+  · split
+    · exact identFree_afterConnected s h
+    · exact ⟨rfl, h.2⟩
+  · exact identFree_afterConnected s h
+
+set_option maxHeartbeats 8000000 in
+theorem step_identFree (s s' : State) (t c : Nat) (e : Ev) (h : stepCaller s t c e = some s')
+    (hid : s.cfg.ident = []) (hf : identFree (s.callers c)) : identFree (s'.callers c) := by
+  step_arms
+  all_goals (try (exfalso; simp [identFree, identPc, hpc] at hf; done))
+  all_goals (try (exfalso; simp [hid] at hg; done))
+  all_goals (simp only [setC_same])
+  all_goals (first
+    | exact hf
+    | exact ⟨rfl, rfl⟩
+    | exact ⟨rfl, hf.2⟩
+    | exact ⟨hf.1, hf.2⟩
+    | exact identFree_failTo hf
+    | (apply identFree_failTo; first | exact ⟨rfl, hf.2⟩ | exact ⟨hf.1, hf.2⟩)
+    | (apply identFree_nextReq; first | exact ⟨rfl, hf.2⟩ | exact ⟨hf.1, hf.2⟩)
+    | (apply identFree_toFlush; first | exact ⟨rfl, hf.2⟩ | exact ⟨hf.1, hf.2⟩)
+    | (apply identFree_afterConnected; first | exact ⟨rfl, hf.2⟩ | exact ⟨hf.1, hf.2⟩)
+    | (rw [startIdent_ni _ _ hid]; apply identFree_afterIdent; first | exact ⟨rfl, hf.2⟩ | exact ⟨hf.1, hf.2⟩)
+    | (rw [startIdent_ni _ _ (by exact hid)]; exact identFree_afterIdent _ hf)
+    | (rw [rcFail_ni hf.2]; exact identFree_failTo hf)
+    | (split <;> first
+        | exact ⟨rfl, hf.2⟩
+        | exact ⟨hf.1, hf.2⟩
+        | (apply identFree_failTo; first | exact ⟨rfl, hf.2⟩ | exact ⟨hf.1, hf.2⟩)
+        | (apply identFree_toFlush; first | exact ⟨rfl, hf.2⟩ | exact ⟨hf.1, hf.2⟩)
+        | (apply identFree_afterConnected; first | exact ⟨rfl, hf.2⟩ | exact ⟨hf.1, hf.2⟩)
+        | (apply identFree_nextReq; first | exact ⟨rfl, hf.2⟩ | exact ⟨hf.1, hf.2⟩))
+    | skip)
+
+theorem step_cfg (s s' : State) (t c : Nat) (e : Ev) (h : stepCaller s t c e = some s') : s'.cfg = s.cfg := by
+  step_arms
+  all_goals (first | rfl | (simp [State.setC, State.acquire, State.release]; done) | (split <;> simp [State.setC, State.acquire, State.release]; done) | skip)
+
 theorem step_call_idle (s s' : State) (t c x : Nat) (kd : Kind) (rq : List Req)
     (h : stepCaller s t c (.call x kd rq) = some s') : (s.callers c).pc = .idle := by
   cases hpc : (s.callers c).pc <;> simp only [stepCaller, hpc] at h <;> first | rfl | (simp at h)
